@@ -25,7 +25,7 @@ for sid in ids:
     try:
         props = claimed if allchecks else ([prop] if prop in claimed else [])
         for p in props:
-            rr = subprocess.run(['./check', p, 'quick'], capture_output=True, text=True)
+            rr = subprocess.run(['./bin/govc', 'check', '--no-evidence', p], capture_output=True, text=True, env=dict(os.environ, GOFLAGS='-mod=mod', GOPROXY='off', GOSUMDB='off', GOTOOLCHAIN='local'))  # never write evidence from a patched tree
             viol = [l for l in rr.stdout.splitlines() if l.startswith('VIOLATION')]
             if rr.returncode == 1 and viol:
                 caught.append({'check': p, 'violations': [re.sub(r'replay=\S+ ', '', v)[:200] for v in viol[:6]]})
@@ -39,7 +39,7 @@ for sid in ids:
     meta.update({'id': sid, 'breaks_property': prop,
       'needs_to_manifest': meta.get('needs_to_manifest') or readme.strip()[:1500],
       'confirmed': open(os.path.join(d,'verify.txt')).read().strip().splitlines()[-4:] if os.path.exists(os.path.join(d,'verify.txt')) else [],
-      'what_i_ran': 'tools/verify_seeded.sh (apply to a scratch worktree of /repo HEAD, go build, full suite, demo fails with the change and passes without), then tools/run_seeded.py (git -C /repo apply; ./check <prop> quick; git -C /repo checkout -- .)',
+      'what_i_ran': 'tools/verify_seeded.sh (apply to a scratch worktree of /repo HEAD, go build, full suite, demo fails with the change and passes without), then tools/run_seeded.py (git -C /repo apply; govc check --no-evidence <prop>; git -C /repo checkout -- .)',
       'detection': {'status': status, 'caught_by': caught}})
     json.dump(meta, open(meta_path,'w'), indent=1)
     summary.append((sid,status,[c['check'] for c in caught]))
